@@ -2,7 +2,7 @@
     reproducible) and property oracle (optimality conditions recomputed in exact rational arithmetic on
     the implementation's output). *)
 From Coq Require Import List NArith ZArith QArith Bool Floats.
-From LinfaVerif Require Export Common.Num Common.NdSum Common.Run Common.QF C11.Model.
+From LinfaVerif Require Export Common.Num Common.NdSum Common.Run Common.QF Common.B32 C11.Model.
 Import ListNotations.
 
 Definition o64 := B64_ops.
@@ -11,7 +11,9 @@ Definition x64 := B64X.
 Record case := {
   c_id : N;
   c_kind : N;                      (* 0 elastic net, 1 multi-task elastic net, 2 ordinary least squares *)
-  c_flags : N;                     (* bit 0: replay the solver bit-exactly; bit 1: feature columns contiguous *)
+  c_flags : N;                     (* bit 0: replay the solver bit-exactly; bit 1: feature columns contiguous;
+                                      bit 2: budget exhausted on a fixed point of the sweep; bit 3: the fit ran in f32
+                                      (all values are f32 values widened exactly to binary64) *)
   c_X : list (list float);         (* n rows of p features *)
   c_Y : list (list float);         (* n rows of t targets *)
   c_icpt : bool;
@@ -41,11 +43,26 @@ Definition approx (a b scale : float) : bool :=
 (* ------------------------------------------------------------------------------------------- *)
 (** * correspondence *)
 
+Definition to32 (x : float) : spec_float := b32_of_b64 (Prim2SF x).
+Definition vec32_eqb (a b : list spec_float) : bool := list_eqb sf_eqb a b.
+
 Definition corr_enet (c : case) : N :=
   let y := col0 (c_Y c) in
   let w := col0 (c_W c) in
   let b := hd 0%float (c_b c) in
   let cc := N.testbit (c_flags c) 1 in
+  if N.testbit (c_flags c) 3 then
+    (* binary32: the same model term at B32_ops *)
+    let X32 := map (map to32) (c_X c) in
+    let y32 := map to32 y in
+    let w32 := map to32 w in
+    (if N.testbit (c_flags c) 0 then
+       let f := enet_fit B32_ops B32X cc X32 y32 (c_icpt c) (to32 (c_pen c)) (to32 (c_l1r c)) (to32 (c_tol c)) (c_maxit c) in
+       flag (vec32_eqb (ef_w f) w32) 1 + flag (sf_eqb (ef_b f) (to32 b)) 2
+       + flag (sf_eqb (ef_gap f) (to32 (c_gap c))) 4 + flag (N.eqb (ef_steps f) (c_steps c)) 8
+     else flag (sf_eqb (fst (compute_intercept1 B32_ops (c_icpt c) y32)) (to32 b)) 2)
+    + flag (vec32_eqb (predict1 B32_ops w32 (to32 b) (map (map to32) (c_Q c))) (map to32 (col0 (c_pred c)))) 16
+  else
   (if N.testbit (c_flags c) 0 then
      let f := enet_fit o64 x64 cc (c_X c) y (c_icpt c) (c_pen c) (c_l1r c) (c_tol c) (c_maxit c) in
      flag (vec_eqb (ef_w f) w) 1 + flag (fl_eqb (ef_b f) b) 2
@@ -134,11 +151,11 @@ Definition kappa : Q := 2.
 Definition floor_scale (cols : list (list Q)) (y w : list Q) (b : Q) : Q :=
   qadd (qadd (q1norm y) (qmul (inject_Z (Z.of_nat (length y))) (qabs b)))
        (qsum (map (fun p => qmul (q1norm (fst p)) (qabs (snd p))) (combine cols w))).
-Definition e2_coord (tol l2 S fs : Q) (col : list Q) : Q :=
-  let fl := qmul (qmul (qpow2m 36) (q1norm col)) fs in
+Definition e2_coord (fe : positive) (tol l2 S fs : Q) (col : list Q) : Q :=
+  let fl := qmul (qmul (qpow2m fe) (q1norm col)) fs in
   qadd (qmul (qmul (qmul kappa tol) (qadd (qdot col col) l2)) S) (qmul fl fl).
-Definition e2_icpt (n : nat) (fs : Q) : Q :=
-  let fl := qmul (qmul (qpow2m 36) (inject_Z (Z.of_nat n))) fs in qmul fl fl.
+Definition e2_icpt (fe : positive) (n : nat) (fs : Q) : Q :=
+  let fl := qmul (qmul (qpow2m fe) (inject_Z (Z.of_nat n))) fs in qmul fl fl.
 
 Definition bits_of_flags (th : list Q) (fl : list bool) : N :=
   fold_left N.lor
@@ -148,8 +165,8 @@ Definition Qdivr (a b : Q) : Q := Qred (a / b).
 
 (** the gap formula of `duality_gap` in exact arithmetic for the point (w, b).  The formula is
     discontinuous where the dual norm dn = |X^T r - l2 w|_inf crosses l1 (in particular for l1 = 0,
-    where dn = 0 in floating point but not exactly): both branches are admitted when dn is within
-    [fl] of l1.  Returns the admissible (gap, magnitude) pairs. *)
+    where dn = 0 in floating point but not exactly): both branches are accepted when dn is within
+    [fl] of l1.  Returns the acceptable (gap, magnitude) pairs. *)
 Definition gap_branch (cst : Q) (yc w r : list Q) (l1 l2 : Q) : Q * Q :=
   let r2 := qdot r r in
   let w2 := qdot w w in
@@ -193,8 +210,13 @@ Definition oracle_enet (c : case) : N :=
   let yc := map (fun v => qsub v b) y in
   let S := qdot yc yc in
   let fs := floor_scale cols y w b in
-  let e2s := map (e2_coord tol l2 S fs) cols in
-  let e2b := e2_icpt n fs in
+  let f32 := N.testbit (c_flags c) 3 in
+  (* rounding floors: binary64 2^-36 / 2^-28 / 2^-34, binary32 (29 bits fewer) 2^-10 / 2^-12 / 2^-10 *)
+  let fe := if f32 then 10%positive else 36%positive in
+  let ge := if f32 then 12%positive else 28%positive in
+  let ne := if f32 then 10%positive else 34%positive in
+  let e2s := map (e2_coord fe tol l2 S fs) cols in
+  let e2b := e2_icpt fe n fs in
   let shape := Nat.eqb (length (c_W c)) p && Nat.eqb (length (c_b c)) 1%nat
                && (c_icpt c || fl_eqb (hd 1%float (c_b c)) 0%float) in
   flag shape 128
@@ -213,12 +235,12 @@ Definition oracle_enet (c : case) : N :=
                   (combine cols (combine w e2s))) 32)
        + (if converged then
             let r := qresidual cols yc w in
-            let fl := qmul (qmul (qpow2m 36) (max_q (map q1norm cols))) fs in
+            let fl := qmul (qmul (qpow2m fe) (max_q (map q1norm cols))) fs in
             let G := fq (c_gap c) in
-            let noise := Qred (qpow2m 34 * fs * (q1norm r + q1norm yc + qpow2m 34 * fs * nq)) in
+            let noise := Qred (qpow2m ne * fs * (q1norm r + q1norm yc + qpow2m ne * fs * nq)) in
             let cands := gap_exact cols yc w r l1 l2 fl in
-            flag (existsb (fun gs => Qle_bool (qabs (Qred (G - fst gs))) (Qred (qpow2m 28 * snd gs + noise))) cands) 8
-            + flag (existsb (fun gs => Qle_bool (Qopp (Qred (qpow2m 28 * snd gs + noise))) G) cands) 16
+            flag (existsb (fun gs => Qle_bool (qabs (Qred (G - fst gs))) (Qred (qpow2m ge * snd gs + noise))) cands) 8
+            + flag (existsb (fun gs => Qle_bool (Qopp (Qred (qpow2m ge * snd gs + noise))) G) cands) 16
           else 0)
      else 0).
 
@@ -231,8 +253,8 @@ Definition oracle_ols (c : case) : N :=
   let w := map fq (col0 (c_W c)) in
   let b := fq (hd 0%float (c_b c)) in
   let fs := floor_scale cols y w b in
-  let e2s := map (e2_coord 0%Q 0%Q 0%Q fs) cols in
-  let e2b := e2_icpt n fs in
+  let e2s := map (e2_coord 36 0%Q 0%Q 0%Q fs) cols in
+  let e2b := e2_icpt 36 n fs in
   let shape := Nat.eqb (length (c_W c)) p && Nat.eqb (length (c_b c)) 1%nat
                && (c_icpt c || fl_eqb (hd 1%float (c_b c)) 0%float) in
   flag shape 128
@@ -268,19 +290,24 @@ Definition oracle_mtl (c : case) : N :=
   + (if (converged || fixedpt) && shape then
        (* per task: centred targets and residual column *)
        let Yc := map (fun pr => map (fun v => qsub v (snd pr)) (fst pr)) (combine Ycols b) in
-       let Rc := map (fun pr => qresidual cols (fst pr) (snd pr)) (combine Yc Wcols) in
        let S := qsum (map (fun yk => qdot yk yk) Yc) in
        let fss := map (fun pr => floor_scale cols (fst (fst pr)) (snd pr) (snd (fst pr)))
                       (combine (combine Ycols b) Wcols) in
        let fs := qsum fss in
-       fold_left N.lor
-         (map (fun pr => let '(col, Wj) := pr in
-                 let G := map (fun z => qsub (qdot col (fst z)) (qmul l2 (snd z))) (combine Rc Wj) in
-                 if group_ok G Wj l1 (e2_coord tol l2 S fs col) then 0%N
-                 else if Qeq_bool (qdot Wj Wj) 0%Q then 2%N else 1%N)
-              (combine cols W)) 0
+       let e2s := map (e2_coord 36 tol l2 S fs) cols in
+       let Rc := map (fun pr => qresidual cols (fst pr) (snd pr)) (combine Yc Wcols) in
+       (* the verified checker decides; the rows are inspected one by one only to name what failed *)
+       (if mtl_ok cols Yc Wcols l1 l2 e2s then 0
+        else
+          fold_left N.lor
+            (map (fun pr => let '(col, (Wj, e2)) := pr in
+                    let C := map (fun r => qdot col r) Rc in
+                    if Nat.eqb (length C) (length Wj) && group_ok_c C Wj l1 l2 e2 then 0%N
+                    else if Qeq_bool (qdot Wj Wj) 0%Q then 2%N else 1%N)
+                 (combine cols (combine W e2s))) 0
+          + flag (Nat.eqb (length Wcols) t) 128)
        + (if c_icpt c then
-            flag (forallb (fun pr => coord_ok (qsum (fst pr)) 0%Q 0%Q 0%Q (e2_icpt n fs)) (combine Rc b)) 4
+            flag (forallb (fun pr => coord_ok (qsum (fst pr)) 0%Q 0%Q 0%Q (e2_icpt 36 n fs)) (combine Rc b)) 4
           else 0)
        + flag (PrimFloat.leb (PrimFloat.opp (PrimFloat.mul 0x1p-28%float
                  (PrimFloat.add (sqsum o64 (c_Y c)) 1%float))) (c_gap c)) 16
